@@ -25,6 +25,8 @@ type c02Plan struct {
 	// Empty lists packet positions (0..npackets) before which an empty-body packet is inserted; position
 	// npackets means "after the last packet", and then the empty packet carries the end-of-message flag.
 	Empty []int `json:"empty,omitempty"`
+	// Twin: a second connection receives another response at the same time (resp.go).
+	Twin bool `json:"twin,omitempty"`
 }
 
 // c02Packets builds the packets of the faulted delivery.
@@ -248,6 +250,7 @@ func (c02) Gen(r *Rand, idx int, tier string) interface{} {
 	}
 	p.QueueSize = Pick(r, []int{1, 2, 3, 5, 100})
 	p.Async = r.Pct(50)
+	p.Twin = r.Pct(15)
 	p.DebugLog = r.Pct(20)
 	return p
 }
@@ -307,6 +310,11 @@ func (c02) Shrink(plan interface{}) []interface{} {
 		q.Async = false
 		out = append(out, q)
 	}
+	if p.Twin {
+		q := cp()
+		q.Twin = false
+		out = append(out, q)
+	}
 	if len(p.Empty) > 0 {
 		q := cp()
 		q.Empty = nil
@@ -341,7 +349,7 @@ func (c02) Run(plan interface{}, schedSeed uint64, replay []simrt.Choice, lenien
 	cfg.Replay, cfg.Lenient, cfg.KeepLog = replay, lenient, keepLog
 	got := runResp(cfg,
 		respDelivery{Packets: c02Packets(body, p), TermAt: -1, Async: p.Async},
-		respClient{QueueSize: p.QueueSize, ReadTimeoutS: 50, DebugLog: p.DebugLog, ReadSizes: p.ReadSizes})
+		respClient{QueueSize: p.QueueSize, ReadTimeoutS: 50, DebugLog: p.DebugLog, ReadSizes: p.ReadSizes, Twin: p.Twin})
 	out := got.Out
 	StdOutcome(v, base.Out)
 	StdOutcome(v, out)
@@ -365,6 +373,12 @@ func (c02) Run(plan interface{}, schedSeed uint64, replay []simrt.Choice, lenien
 	}
 	if got.ConnErr != "" || got.SendErr != "" {
 		v.Violate("client-error", "client-setup-error", "connect/send failed: %s %s", got.ConnErr, got.SendErr)
+	}
+	if p.Twin {
+		v.Probe("twin-connection")
+		if got.TwinErr != "" || got.TwinPkgs != 4+twinStatuses {
+			v.Violate("twin", "second connection disturbed", "a second connection receiving [RETURNSTATUS DONE(more) %d x RETURNSTATUS DONE(more) DONE(final)] at the same time got %d packages (%d expected) %s", twinStatuses, got.TwinPkgs, 4+twinStatuses, got.TwinErr)
+		}
 	}
 	want, have := pkgsOnly(base.Recs), pkgsOnly(got.Recs)
 	werr, herr := errsOnly(base.Recs), errsOnly(got.Recs)
